@@ -377,6 +377,20 @@ class SsbGraphMinimizer:
                             g.delete_edges(case_edge.index)
                         vs_to_delete.add(next_vertex)
                         next_vertex = else_edge_target_vertex
+                    # If the default case only jumps somewhere (to the block it shares with a case, or to the end of
+                    # the switch), the else edge leads there directly.
+                    if (
+                        next_vertex is not None
+                        and isinstance(next_vertex["op"], SsbLabelJump)
+                        and next_vertex["op"].maybe_root is not None
+                        and next_vertex["op"].root.op_code.name == OP_JUMP
+                        and next_vertex["op"].get_marker() is None
+                        and len(next_vertex.in_edges()) == 0
+                        and len(next_vertex.out_edges()) == 1
+                        and isinstance(next_vertex.out_edges()[0].target_vertex["op"], SsbLabel)
+                    ):
+                        vs_to_delete.add(next_vertex)
+                        next_vertex = next_vertex.out_edges()[0].target_vertex
                     # Else edge:
                     if next_vertex is not None:
                         v_else_edge = next(e for e in v.out_edges() if e["switch_ops"] is None)
